@@ -270,6 +270,12 @@ TWIN_FAMILIES = {
     "nested": ("nested", "exists", "for_all", "bin_exists", "bin_for_all"),
 }
 TWIN_OPS = {op: fam for fam, ops in TWIN_FAMILIES.items() for op in ops}
+# Families whose Rust loop also has a STEP-FAITHFUL explicit-stack machine in the model (Model/ApplyLimitStack.v, Model/DryStack.v,
+# Model/Apply3Stack.v; proved equal to the reference definitions in Proofs/ApplyLimitStack.v, Proofs/DryStack.v, Proofs/Apply3Stack.v).
+# BDD_ENGINE=stack selects the machine when no operand has more than STACK_MAX_NODES nodes (driver/ops_core.ml `pick3`; above that the
+# fast twin answers); for the nested family `stack` = reference.
+STACK_FAMILIES = ("limit", "dry", "ternary")
+STACK_MAX_NODES = 300
 CROSS_DETAIL = {}
 
 
@@ -296,20 +302,44 @@ def _twin_sample(steps, per_family, max_nodes):
     return out
 
 
-def engine_crosscheck(workdir, steps, limit=400, max_nodes=2000, twin_limit=100, twin_max_nodes=800):
+def _stack_sample(steps, per_family, exclude):
+    """per stack-machine family: steps all of whose operands are small enough to be served by the explicit-stack machine under
+    BDD_ENGINE=stack — the largest such operands first, then an even spread; steps already in `exclude` are not repeated"""
+    seen = set(id(s) for s in exclude)
+    out = []
+    for fam in STACK_FAMILIES:
+        cand = [s for s in steps if TWIN_OPS.get(s[1][0]) == fam and _twin_step(s, STACK_MAX_NODES) and id(s) not in seen]
+        cand.sort(key=lambda s: -max([len(x) for x in s[1][1:] if is_bdd(x)] or [0]))
+        head = cand[:per_family // 4]
+        rest = cand[per_family // 4:]
+        stride = max(1, len(rest) // max(1, per_family - len(head)))
+        out += head + rest[::stride][:per_family - len(head)]
+    return out
+
+
+def engine_crosscheck(workdir, steps, limit=400, max_nodes=2000, twin_limit=100, twin_max_nodes=800, stack_limit=60):
     """Cross-checks the extracted engines on a sample of this run's steps.  Binary operators (fbin/bin/named): the
     reference engine (Model/Apply.v), the fast one (Model/ApplyFast.v, proved equal in Proofs/ApplyFast.v) and the
     step-faithful explicit-stack machine (Model/ApplyStack.v, one step = one iteration of the Rust loop, proved equal in
     Proofs/ApplyStack.v).  Size-limited operator, dry run, ternary operators and nested apply / quantifiers: the reference
     definitions (Model/Apply.v, Model/Apply3.v, Model/Nested.v) and their fast twins (Model/ApplyFast2.v,
-    Model/Apply3Fast.v, Model/NestedFast.v; proved equal in Proofs/ApplyFast2.v, Proofs/Apply3Fast.v, Proofs/NestedFast.v).
-    All are forced on the same transcript lines (BDD_ENGINE=slow|fast|stack; for the twin families `stack` = reference) and
-    must print identical results, equal to the normal run's model answer.  Operands above max_nodes (twin families:
-    twin_max_nodes) nodes are left to the fast engines only."""
+    Model/Apply3Fast.v, Model/NestedFast.v; proved equal in Proofs/ApplyFast2.v, Proofs/Apply3Fast.v, Proofs/NestedFast.v);
+    for the size-limited operator, the dry run and the ternary operators also the step-faithful explicit-stack machines of
+    their own Rust loops (Model/ApplyLimitStack.v, Model/DryStack.v, Model/Apply3Stack.v; proved equal in
+    Proofs/ApplyLimitStack.v, Proofs/DryStack.v, Proofs/Apply3Stack.v), which BDD_ENGINE=stack selects on operands of at most
+    STACK_MAX_NODES nodes (above: the fast twin; nested family: the reference).  On top of the twin sample an extra sample of
+    steps small enough for the machines is taken per stack family (_stack_sample), so that they are exercised up to their
+    threshold.  All engines are forced on the same transcript lines (BDD_ENGINE=slow|fast|stack) and must print identical
+    results, equal to the normal run's model answer.  Operands above max_nodes (twin families: twin_max_nodes) nodes are left
+    to the fast engines only."""
     import subprocess
     cand = [s for s in steps if _small_binary(s, max_nodes)]
     twins = _twin_sample(steps, twin_limit, twin_max_nodes)
+    twins += _stack_sample(steps, stack_limit, twins)
     CROSS_DETAIL["engine_crosscheck_twin_families"] = {fam: sum(1 for s in twins if TWIN_OPS[s[1][0]] == fam) for fam in TWIN_FAMILIES}
+    # how many of the sampled steps are answered by an explicit-stack machine (not by the fast twin) under BDD_ENGINE=stack
+    CROSS_DETAIL["engine_crosscheck_stack_machine_families"] = {
+        fam: sum(1 for s in twins if TWIN_OPS[s[1][0]] == fam and _twin_step(s, STACK_MAX_NODES)) for fam in STACK_FAMILIES}
     if not cand and not twins:
         return 0, 0
     # the largest operands first (they are the ones served by the fast engine in the normal run), then an even spread
@@ -364,7 +394,8 @@ def _coq_nlist(x):
 def vm_crosscheck_twins(workdir, steps, per_family=6, max_nodes=40):
     """the same validation for the fast twins of the size-limited operator, the dry run, the ternary engine and the
     nested apply: a sample of small steps of each family is re-evaluated with vm_compute inside coqc with the REFERENCE
-    definition and with the FAST twin; both must equal the extracted binary's answer"""
+    definition and with the FAST twin — and, for the families that have one (STACK_FAMILIES), with the explicit-stack
+    MACHINE of the loop; all must equal the extracted binary's answer"""
     sample = []
     for fam in TWIN_FAMILIES:
         sample += [s for s in steps if TWIN_OPS.get(s[1][0]) == fam and _twin_step(s, max_nodes)][:per_family]
@@ -373,14 +404,19 @@ def vm_crosscheck_twins(workdir, steps, per_family=6, max_nodes=40):
         return 0, 0
     lines = ["From Coq Require Import List NArith. Import ListNotations.",
              "From BddVerif Require Import Model.Bdd Model.Apply Model.Ops Model.ApplyFast Model.ApplyFast2 Model.Apply3 Model.Apply3Fast Model.Nested Model.NestedFast.",
+             "From BddVerif Require Import Model.ApplyLimitStack Model.DryStack Model.Apply3Stack.",
              "Open Scope N_scope.",
              "Definition tr (r : bdd) := map (fun n => (nvar n, nlow n, nhigh n)) r.",
              "Definition showb (o : outcome bdd) : N * list (N * N * N) := match o with Ok r => (0, tr r) | Panic => (1, []) | OutOfFuel => (2, []) end.",
              "Definition showl (o : outcome (option bdd)) : N * list (N * N * N) := match o with Ok (Some r) => (0, tr r) | Ok None => (3, []) | Panic => (1, []) | OutOfFuel => (2, []) end.",
              "Definition showd (o : outcome (option (bool * N))) : N * list (N * N * N) := match o with Ok (Some (f, c)) => (0, [((if f then 1 else 0), c, 0)]) | Ok None => (3, []) | Panic => (1, []) | OutOfFuel => (2, []) end."]
+    nev = []   # number of evaluations per sampled step
     for (cid, call, impl, model, aux) in sample:
         op = call[0]
-        for sfx in ("", "_fast"):
+        sfxs = ("", "_fast", "_stack") if TWIN_OPS[op] in STACK_FAMILIES else ("", "_fast")
+        nev.append(len(sfxs))
+        for sfx in sfxs:
+            tsfx = "_stack" if sfx == "_stack" else "_faithful" + sfx   # ternary entry points: *_faithful, *_faithful_fast, *_stack
             if op in ("fbinlim", "binlim"):
                 lim, t = call[1], call[2]
                 fa, fb, fo, a, b = (call[3:8] if op == "fbinlim" else ["N", "N", "N"] + call[3:5])
@@ -390,12 +426,12 @@ def vm_crosscheck_twins(workdir, steps, per_family=6, max_nodes=40):
                 fa, fb, fo, a, b = (call[3:8] if op == "dry" else ["N", "N", "N"] + call[3:5])
                 e = "showd (check_fused_binary_flip_op%s %s %s %s %s %s %s %s)" % (sfx, lim, _coq_bdd(a), _coq_bdd(b), _coq_ov(fa), _coq_ov(fb), _coq_ov(fo), _coq_tab(t))
             elif op == "ite":
-                e = "showb (if_then_else_faithful%s %s %s %s)" % (sfx, _coq_bdd(call[1]), _coq_bdd(call[2]), _coq_bdd(call[3]))
+                e = "showb (if_then_else%s %s %s %s)" % (tsfx, _coq_bdd(call[1]), _coq_bdd(call[2]), _coq_bdd(call[3]))
             elif op == "tern":
-                e = "showb (ternary_op_faithful%s %s %s %s %s)" % (sfx, _coq_bdd(call[2]), _coq_bdd(call[3]), _coq_bdd(call[4]), _coq_tab(call[1], "op3_of_table"))
+                e = "showb (ternary_op%s %s %s %s %s)" % (tsfx, _coq_bdd(call[2]), _coq_bdd(call[3]), _coq_bdd(call[4]), _coq_tab(call[1], "op3_of_table"))
             elif op == "ftern":
-                e = "showb (fused_ternary_flip_op_faithful%s %s %s %s %s %s %s %s %s)" % (
-                    sfx, _coq_bdd(call[6]), _coq_bdd(call[7]), _coq_bdd(call[8]), _coq_ov(call[2]), _coq_ov(call[3]), _coq_ov(call[4]), _coq_ov(call[5]),
+                e = "showb (fused_ternary_flip_op%s %s %s %s %s %s %s %s %s)" % (
+                    tsfx, _coq_bdd(call[6]), _coq_bdd(call[7]), _coq_bdd(call[8]), _coq_ov(call[2]), _coq_ov(call[3]), _coq_ov(call[4]), _coq_ov(call[5]),
                     _coq_tab(call[1], "op3_of_table"))
             elif op in ("exists", "for_all"):
                 e = "showb (bdd_%s_faithful%s %s %s)" % (op, sfx, _coq_bdd(call[1]), _coq_nlist(call[2]))
@@ -411,8 +447,8 @@ def vm_crosscheck_twins(workdir, steps, per_family=6, max_nodes=40):
     if rc != 0:
         raise RuntimeError("vm_compute cross-check (fast twins) failed to compile: " + (out + err)[-2000:])
     vals = re.findall(r"=\s*\((\d+),\s*(\[.*?\])\)\s*:\s*N \* list", out, flags=re.S)
-    if len(vals) != 2 * len(sample):
-        raise RuntimeError("vm_compute cross-check (fast twins): %d answers for %d evaluations" % (len(vals), 2 * len(sample)))
+    if len(vals) != sum(nev):
+        raise RuntimeError("vm_compute cross-check (fast twins, stack machines): %d answers for %d evaluations" % (len(vals), sum(nev)))
 
     def triples(v):
         return [tuple(int(x) for x in re.findall(r"\d+", t)) for t in re.findall(r"\(([^()]*)\)", v)]
@@ -432,10 +468,13 @@ def vm_crosscheck_twins(workdir, steps, per_family=6, max_nodes=40):
         return None
 
     agree = 0
+    off = 0
     for i, (cid, call, impl, model, aux) in enumerate(sample):
         want = want_of(model)
-        if want is not None and all((int(vals[2 * i + j][0]), triples(vals[2 * i + j][1])) == want for j in range(2)):
+        if want is not None and all((int(vals[off + j][0]), triples(vals[off + j][1])) == want for j in range(nev[i])):
             agree += 1
+        off += nev[i]
+    CROSS_DETAIL["vm_compute_crosscheck_stack_machine_steps"] = sum(1 for k in nev if k == 3)
     return len(sample), agree
 
 
